@@ -34,4 +34,42 @@ CHECKS["C02"] = dict(
     design_ref="DESIGN.md section 3, C02",
     note="Trusted: ref.py; bounded domains (<= 10/14 random bits). One known finding (F23) is classified by mechanism.",
 )
+
+_SOLVER_NOTE = ("Trusted: ref.py (never imports vsc) on the validated input language (ref.Corner => not judged); exhaustive "
+                "equivalence up to 10-11 random bits per call in the quick tier, 14 in the thorough tier; known findings "
+                "classified by mechanism (known_findings.json).")
+CHECKS["C03"] = dict(
+    level="exploration",
+    technique="runtime monitors: pre/post snapshots of every field through the public read paths (frame condition on success and failure) + reference solution set with the current constants + solver-formula monitor (pointwise SAT on a solver clone)",
+    text="Histories of 10-40 operations (assignments to any field, rand_mode toggles, edits of a mutable rangelist and of a non-random list "
+         "used by in-constraints, randomize / randomize_with / vsc.randomize(subset) incl. inline constraints naming fields that are not "
+         "passed / randomize on a sub-object) over object trees with random and non-random sub-objects. After every call, every leaf that "
+         "is not random in that call must read exactly as before (also when the call fails), the values must lie in the reference "
+         "solution set computed from the CURRENT non-random values / rand_mode / collection contents, and the lowered formula must be "
+         "pointwise equivalent (a stale constant shows at once).",
+    design_ref="DESIGN.md section 3, C03", note=_SOLVER_NOTE)
+CHECKS["C06"] = dict(
+    level="exploration",
+    technique="runtime monitors: per-call reference solution set (class blocks AND this call's inline set AND referenced dynamic blocks on the referencing object) + solver-formula monitor on every call of the history",
+    text="Populations of 1-5 live instances (created before and after the one under test); randomize() alternating with randomize_with() "
+         "whose inline sets hold random statements and 1-3 dynamic references (d(), d1()|d2(), d()&e, ~d(), it.items[i].d(), the same "
+         "block referenced repeatedly). Leakage of an earlier inline set or dynamic reference is over-restriction: values never show it, "
+         "the pointwise comparison of the formula of the LATER call does.",
+    design_ref="DESIGN.md section 3, C06", note=_SOLVER_NOTE)
+CHECKS["C07"] = dict(
+    level="exploration",
+    technique="runtime monitors: reference model of most-derived block per name and per-instance constraint_mode history; API-boundary value check + solver-formula monitor (pointwise SAT on a solver clone)",
+    text="Class hierarchies of depth 1-3 with 2-4 block names (each overridden or not, blocks added in derived classes), a holder with a "
+         "nested instance and a list of instances; histories of 14-30 operations: constructing further instances before and after toggles, "
+         "obj.blk.constraint_mode(b) on top-level / nested / list-element instances, randomize and randomize_with on any instance. An over- "
+         "or under-enforced block is a pointwise mismatch of the lowered formula even when no draw witnesses it.",
+    design_ref="DESIGN.md section 3, C07", note=_SOLVER_NOTE)
+CHECKS["C08"] = dict(
+    level="exploration",
+    technique="runtime monitors: reference evaluation over fields flattened by attribute path / index + solver-formula monitor (pointwise SAT on a solver clone)",
+    text="Object trees of depth 2-3 with several sibling sub-objects of one class, random and non-random sub-objects, lists of objects and "
+         "attribute names whose dir() order differs from declaration order; cross-level constraints in class blocks and inline; calls on "
+         "the root, on sub-objects and free-standing. Sibling aliasing or a block of a non-random sub-object being enforced appears as the "
+         "wrong variable / an extra conjunct in the lowered formula, i.e. a pointwise mismatch.",
+    design_ref="DESIGN.md section 3, C08", note=_SOLVER_NOTE)
 NOT_YET = {}
